@@ -15,11 +15,11 @@ ID = 'C08'
 LEVEL = 'exploration'
 BUDGET_S = {'quick': 400, 'thorough': 1800}
 RULE = ('Hypothesis rule-based state machine inside one worker process. State: working directory (3 scratch dirs), client '
-        'instances (caching on/off), 4 named input files, a pool of 17 request contents (two of them the same lines with a repeated parameter in opposite order) from all fast families (reservoir '
+        'instances (caching on/off), 4 named input files, a pool of 24 request contents (two sparse ones relying on the default temperature profile) (two of them the same lines with a repeated parameter in opposite order; five three-segment requests that differ only in the tail of a list-valued parameter or mix the list and the enumerated spelling of the profile) from all fast families (reservoir '
         'models 0-5 and SBT, every surface-plant class, add-ons, multi-segment) and 6 failing contents (out-of-range value, '
         'unknown option, missing profile file = bare sys.exit, division by zero in the linear-heat-sweep model, missing '
         'demand file, gradient glued by missing newline). Rules: run content through a new params object, run a named file, '
-        'rewrite a file then run it, run the entry point directly the way __main__ does, chdir, new client. Oracle: each '
+        'rewrite a file then run it, run two requests that differ in one line back to back on one client, run the entry point directly the way __main__ does, chdir, new client. Besides the machine every content is re-run in fresh interpreters under 3 (quick) / 8 (thorough) further hash seeds and must give the oracle report. Oracle: each '
         'distinct content is run once in a pristine subprocess (fresh interpreter, another PYTHONHASHSEED, another cwd); '
         'after every step the returned report must equal that content\'s pristine report (time stamps stripped), a failing '
         'content must fail, and os.getcwd() / sys.argv (identity and contents) must be what they were before the call. '
@@ -60,6 +60,23 @@ def contents():
         [['Gradient 1', '45']] + gen.merge(gen.drop_param(gen.RES4, 'Gradient 1'), gen.ELEC(1), gen.ECON['1']) + [['Gradient 1', '65']],
         [['Gradient 1', '65']] + gen.merge(gen.drop_param(gen.RES4, 'Gradient 1'), gen.ELEC(1), gen.ECON['1']) + [['Gradient 1', '45']],
     ]
+    # near-siblings: the same request except for the tail of a list-valued parameter; and the two spellings of the
+    # temperature profile (list 'Gradients, a, b' and enumerated 'Gradient N') mixed in one input, whose outcome is defined by
+    # the order the simulator visits its own parameters in - not by anything a hash seed may change
+    seg = gen.merge(gen.drop_param(gen.RES4, 'Gradient 1'), gen.ELEC(1), gen.ECON['1'], [['Number of Segments', '3']])
+    ok += [
+        gen.merge(seg, [['Gradients', '40, 30, 60'], ['Thicknesses', '1, 1.2']]),
+        gen.merge(seg, [['Gradients', '40, 70, 60'], ['Thicknesses', '1, 1.2']]),
+        gen.merge(seg, [['Gradients', '40, 30, 60'], ['Thicknesses', '1, 0.6']]),
+        gen.merge(seg, [['Gradients', '40, 30, 60'], ['Gradient 2', '70'], ['Thicknesses', '1.5, 1'], ['Thickness 1', '2']]),
+        gen.merge(seg, [['Gradient 3', '25'], ['Gradients', '45, 35, 55'], ['Thickness 2', '0.7'], ['Thicknesses', '1.1, 1.3'], ['Gradient 1', '60']]),
+    ]
+    # sparse requests that rely on the documented defaults for the temperature profile (no 'Gradient 1' line: 50 degC/km;
+    # second segment left at its default) - state left behind by an earlier request shows here
+    ok += [
+        gen.merge(gen.drop_param(gen.RES4, 'Gradient 1'), gen.ELEC(1), gen.ECON['1']),
+        gen.merge(gen.RES4, gen.ELEC(2), gen.ECON['1'], [['Number of Segments', '2'], ['Gradient 1', '62'], ['Thickness 1', '2.2']]),
+    ]
     bad = [
         gen.merge(gen.RES4, gen.ELEC(2), gen.ECON['1'], [['Gradient 1', '5000']]),
         gen.merge(gen.RES4, gen.ELEC(2), gen.ECON['1'], [['Reservoir Model', '99']]),
@@ -97,7 +114,7 @@ print('GXVJSON' + json.dumps(res))
 '''
 
 
-def pristine(texts, workdir):
+def pristine(texts, workdir, hash_seeds=None):
     """run every content once in its own fresh interpreter, in parallel batches"""
     out = [None] * len(texts)
     procs = []
@@ -107,7 +124,7 @@ def pristine(texts, workdir):
         inp = os.path.join(d, 'in.txt')
         with open(inp, 'w', encoding='UTF-8') as f:
             f.write(t)
-        env = dict(os.environ, PYTHONHASHSEED=str(1000 + 7 * i), TMPDIR=d, PYTHONDONTWRITEBYTECODE='1')
+        env = dict(os.environ, PYTHONHASHSEED=str(hash_seeds[i] if hash_seeds else 1000 + 7 * i), TMPDIR=d, PYTHONDONTWRITEBYTECODE='1')
         env.pop('PYTHONPATH', None)
         procs.append((i, subprocess.Popen([sys.executable, '-c', PRISTINE % {'src': SRC_DIR}, inp, os.path.join(d, 'out.out')],
                                           cwd=d, env=env, stdout=subprocess.PIPE, stderr=subprocess.DEVNULL, text=True)))
@@ -141,8 +158,16 @@ def plan(tier, seed, shards):
     unexpected = [i for i, r in enumerate(res) if (i < len(ok)) != r['ok']]
     n_seq = 14 if tier == 'quick' else 190
     steps = 12 if tier == 'quick' else 30
-    return [{'kind': 'machine', 'oracle': path, 'n': n_seq, 'steps': steps, 'seed': seed * 1000 + s, 'pool_unexpected': unexpected}
-            for s in range(shards)]
+    specs = [{'kind': 'machine', 'oracle': path, 'n': n_seq, 'steps': steps, 'seed': seed * 1000 + s, 'pool_unexpected': unexpected}
+             for s in range(shards)]
+    # every content again in fresh interpreters under further hash seeds (the oracle run used yet another one)
+    k = 3 if tier == 'quick' else 8
+    jobs = [(ci, 50000 + 977 * seed + 131 * ci + 17 * r) for ci in range(len(ok) + len(bad)) for r in range(k)]
+    for s in range(shards):
+        mine = jobs[s::shards]
+        if mine:
+            specs.append({'kind': 'hashseed', 'oracle': path, 'jobs': mine})
+    return specs
 
 
 def finalize(merged):
@@ -353,8 +378,47 @@ def _load_oracle(path):
         return json.load(f)
 
 
+def _hashseed_job(ci, hs, oracle, rec):
+    case = {'kind': 'hashseed', 'content': ci, 'hash_seed': hs}
+    work = tempfile.mkdtemp(prefix='c08-hs-', dir=worker.scratch_dir())
+    try:
+        got = pristine([oracle['texts'][ci]], work, hash_seeds=[hs])[0]
+    finally:
+        import shutil
+        shutil.rmtree(work, ignore_errors=True)
+    want = oracle['results'][ci]
+    rec.case(case, nontrivial=True, labels=['fresh_interpreter_other_hash_seed', 'ok' if want['ok'] else 'failing'], key=[ci, hs],
+             sample={'content': ci, 'hash_seed': hs, 'first_lines': oracle['texts'][ci].splitlines()[:4]})
+    if want['ok'] != got['ok']:
+        rec.violation('outcome_depends_on_hash_seed', case, {'content': ci, 'hash_seed': hs, 'oracle_ok': want['ok'], 'this_ok': got['ok'],
+                                                             'error': got.get('error') or want.get('error')}, content=str(ci))
+    elif want['ok'] and want['report'] != got['report']:
+        diff = [(a, b) for a, b in zip(got['report'], want['report']) if a != b][:3]
+        rec.violation('result_depends_on_hash_seed', case, {'content': ci, 'hash_seed': hs, 'first_differences': diff,
+                                                            'n_lines': [len(got['report']), len(want['report'])]}, content=str(ci))
+
+
+def _siblings(texts, n_ok):
+    """pairs of accepted contents that differ in exactly one line"""
+    out = []
+    for i in range(n_ok):
+        a = texts[i].splitlines()
+        for j in range(i + 1, n_ok):
+            b = texts[j].splitlines()
+            if len(a) == len(b) and sum(1 for x, y in zip(a, b) if x != y) == 1:
+                out.append((i, j))
+    return out
+
+
 def run_shard(spec, rec):
     oracle = _load_oracle(spec['oracle'])
+    if spec['kind'] == 'hashseed':
+        worker.init_worker()
+        for ci, hs in spec['jobs']:
+            if rec.out_of_time():
+                break
+            _hashseed_job(ci, hs, oracle, rec)
+        return
     if spec.get('pool_unexpected'):
         # a content of the 'accepted' pool fails (or a failing one succeeds) already in a pristine process: not a history effect;
         # keep going with what the pristine run says, but say so
@@ -362,6 +426,7 @@ def run_shard(spec, rec):
     n_ok = oracle['ok_n']
     n_all = len(oracle['texts'])
     content_idx = st.one_of(st.integers(0, n_ok - 1), st.integers(0, n_all - 1), st.integers(n_ok, n_all - 1))
+    sibs = _siblings(oracle['texts'], n_ok) or [(0, 1)]
 
     class Machine(RuleBasedStateMachine):
         def __init__(self):
@@ -395,6 +460,20 @@ def run_shard(spec, rec):
         @rule(ci=content_idx)
         def run_main(self, ci):
             self._do(['run_main', ci])
+
+        @rule(pair=st.sampled_from(sibs), swap=st.booleans(), cl=st.integers(0, 1), j=st.integers(0, 4))
+        def run_siblings(self, pair, swap, cl, j):
+            # two requests that differ in one line, back to back on the same client: through params objects, or through one
+            # named file rewritten in between
+            a, b = (pair[1], pair[0]) if swap else pair
+            if j == 4:
+                self._do(['run_params', a, cl])
+                self._do(['run_params', b, cl])
+            else:
+                self._do(['rewrite', j, a])
+                self._do(['run_file', j, cl])
+                self._do(['rewrite', j, b])
+                self._do(['run_file', j, cl])
 
         @rule(d=st.integers(0, 2))
         def chdir(self, d):
@@ -439,10 +518,16 @@ def evaluate(case, rec):
                 import shutil
                 shutil.rmtree(work, ignore_errors=True)
             _ORACLE_CACHE['o'] = {'ok_n': len(ok), 'texts': ok + bad, 'results': res}
+    if case.get('kind') == 'hashseed':
+        worker.init_worker()
+        _hashseed_job(case['content'], case['hash_seed'], _ORACLE_CACHE['o'], rec)
+        return
     run_ops(case['ops'], _ORACLE_CACHE['o'], rec)
 
 
 def shrink_candidates(case):
+    if case.get('kind') == 'hashseed':
+        return
     ops = case['ops']
     for i in range(len(ops)):
         yield {'kind': 'ops', 'ops': ops[:i] + ops[i + 1:]}
